@@ -5,12 +5,13 @@
 (* ones dropped), FilterStep (one ranked feature at a time), Cut.          *)
 (***************************************************************************)
 EXTENDS SelectorOps
-CONSTANTS Feats, Levels, NBests     \* measures range over Levels \cup {UNDEF}; association is above/below thr
+CONSTANTS Feats, Levels, NBests,    \* measures range over Levels \cup {UNDEF}
+AVals                               \* inter-feature associations (Thr = 5: 0 below, 5 exactly at, 10 above the threshold)
 VARIABLES m, a, nbest, ranked, pos, kept, result, phase
 vars == <<m, a, nbest, ranked, pos, kept, result, phase>>
 Thr == 5
 Perms(S) == {p \in [1..Cardinality(S) -> S] : Rng(p) = S}
-SymMatrices == {x \in [Feats -> [Feats -> {0, 10}]] : \A f, g \in Feats : x[f][g] = x[g][f] /\ x[f][f] = 0}
+SymMatrices == {x \in [Feats -> [Feats -> AVals \cup {0}]] : \A f, g \in Feats : x[f][g] = x[g][f] /\ x[f][f] = 0}
 
 Init == /\ m \in [Feats -> Levels \cup {UNDEF}] /\ a \in SymMatrices /\ nbest \in NBests
         /\ ranked = <<>> /\ pos = 1 /\ kept = <<>> /\ result = <<>> /\ phase = "rank"
